@@ -163,7 +163,7 @@ impl LogBuilder {
     // the sink: appends what it is given (the byte counter update is the repository's own statement)
 //@ extract sst/src/log.rs | impl LogBuilder<W> :: fn write
 //@ ret r
-//@ rewrite X7 `io_result_with_context(self.output.write_all(buffer), "log write_all")?;` => `sink_write_all(&mut self.output, buffer)?;`
+//@ rewrite-re? X7 `io_result_with_context\(self\.output\.write_all\((\w+)\), "[^"]*"\)` => `sink_write_all(&mut self.output, \1)`
 //@ pre <<
         old(self).bytes_written + buffer@.len() <= 0xffff_ffff_ffff_ffff,
 //@ >>
@@ -175,6 +175,7 @@ impl LogBuilder {
 
     // ASSUMED (derive-generated packing; Kani unit sst_log: write_header_total, header_size_in_range)
 //@ extract sst/src/log.rs | impl LogBuilder<W> :: fn write_header
+//@ rewrite-re? X7 `io_result_with_context\(self\.output\.write_all\((\w+)\), "[^"]*"\)` => `sink_write_all(&mut self.output, \1)`
 //@ ret r
 //@ pre <<
         old(self).bytes_written + 19 <= 0xffff_ffff_ffff_ffff,
@@ -191,6 +192,7 @@ impl LogBuilder {
     }
 
 //@ extract sst/src/log.rs | impl LogBuilder<W> :: fn true_up
+//@ rewrite-re? X7 `io_result_with_context\(self\.output\.write_all\((\w+)\), "[^"]*"\)` => `sink_write_all(&mut self.output, \1)`
 //@ ret r
 //@ pre <<
         old(self).bytes_written <= nb, nb - old(self).bytes_written <= 19,
@@ -207,6 +209,7 @@ impl LogBuilder {
 //@ end
 
 //@ extract sst/src/log.rs | impl LogBuilder<W> :: fn append_split
+//@ rewrite-re? X7 `io_result_with_context\(self\.output\.write_all\((\w+)\), "[^"]*"\)` => `sink_write_all(&mut self.output, \1)`
 //@ ret r
 //@ rewrite-re X7 `crc32c::crc32c\(` => `crc32c_of(`
 //@ pre <<
@@ -260,6 +263,7 @@ impl LogBuilder {
 //@ end
 
 //@ extract sst/src/log.rs | impl LogBuilder<W> :: fn _append
+//@ rewrite-re? X7 `io_result_with_context\(self\.output\.write_all\((\w+)\), "[^"]*"\)` => `sink_write_all(&mut self.output, \1)`
 //@ ret r
 //@ rewrite-re X7 `crc32c::crc32c\(` => `crc32c_of(`
 //@ rewrite-re X7 `let header_sz: v64 = header\.pack_sz\(\)\.into\(\);\s*let header_pa = stack_pack\(header_sz\);\s*let header_pa = header_pa\.pack\(&header\);` => `let header_pa_len: usize = framed_len(&header);`
